@@ -1,13 +1,15 @@
 #!/bin/bash
-# tools_regress.sh [seeded|audit|benign|all] — regression of the machinery itself:
+# tools_regress.sh [seeded|audit|benign|all] [tag-regex] — regression of the machinery itself:
 #   seeded: every kept breaking change (seeded/<tag>/patch.diff) applied to /repo, ./check <its property> quick must print a VIOLATION line
 #   benign: every kept behaviour-preserving refactoring (benign/<tag>/patch.diff) applied, every quick check must stay quiet
 # /repo is reverted after each; evidence and generated tables are restored at the end.  Output: one line per tag.
 MODE=${1:-all}
+FILTER=${2:-.}     # optional: regular expression on the tag (e.g. 'C19|C20')
 cd /verif
 if [ "$MODE" = seeded ] || [ "$MODE" = all ]; then
   for d in seeded/*/; do
     tag=$(basename $d); [ -f $d/patch.diff ] || continue
+    echo "$tag" | grep -qE "$FILTER" || continue
     pid=$(python3 -c "import json;print(json.load(open('$d/meta.json'))['property'])" 2>/dev/null) || continue
     (cd /repo && git apply /verif/$d/patch.diff) 2>/dev/null || { echo "SEEDED $tag $pid: patch no longer applies"; continue; }
     out=$(./check $pid quick 2>&1 | grep -E "^VIOLATION|quick:")
@@ -21,6 +23,7 @@ if [ "$MODE" = audit ] || [ "$MODE" = all ]; then
   for f in audit/*/own*.diff; do
     [ -f $f ] || continue
     pid=$(basename $(dirname $f)); tag=$pid-$(basename $f .diff)
+    echo "$tag" | grep -qE "$FILTER" || continue
     (cd /repo && git apply /verif/$f) 2>/dev/null || { echo "AUDIT $tag: patch no longer applies"; continue; }
     out=$(./check $pid quick 2>&1 | grep -E "^VIOLATION|quick:")
     git -C /repo checkout -- . && git -C /repo clean -fdq src
@@ -31,6 +34,7 @@ fi
 if [ "$MODE" = benign ] || [ "$MODE" = all ]; then
   for d in benign/*/; do
     tag=$(basename $d); [ -f $d/patch.diff ] || continue
+    echo "$tag" | grep -qE "$FILTER" || continue
     (cd /repo && git apply /verif/$d/patch.diff) 2>/dev/null || { echo "BENIGN $tag: patch no longer applies"; continue; }
     alarms=""
     for i in 01 02 03 04 05 06 07 08 09 10 11 12 13 14 15 16 17 18 19 20; do
